@@ -139,6 +139,36 @@ fn nested_programs() -> Vec<(&'static str, Program, Vec<Vec<Val>>)> {
         }
         out.push(("nested-index-assignment-with-failing-inner-index", p, ins));
     }
+    // a parameter of main named like a constant of another width; callees read the constant
+    {
+        let u16t = Ty::Int(IntTy::U16);
+        let mut p = Program::simple_main(
+            vec![("kq", u8t.clone()), ("y", u16t.clone())],
+            Ty::Tup(vec![u16t.clone(), u8t.clone(), u16t.clone()]),
+            vec![
+                let_("r1", call("addk", vec![var("y")])),
+                let_("r2", call("viaq", vec![var("kq"), var("y")])),
+                expr_stmt(tup(vec![var("r1"), var("kq"), var("r2")])),
+            ],
+        );
+        p.consts.push(ConstDef { name: "kq".into(), ty: u16t.clone(), value: Val::Int(300, IntTy::U16) });
+        let pu = |n: &str, t: Ty| Param { mutable: false, name: n.into(), ty: t };
+        p.fns.push(FnDef { is_pub: false, name: "addk".into(), params: vec![pu("v", u16t.clone())], ret: u16t.clone(), body: vec![expr_stmt(bin(BinOp::BitXor, var("v"), var("kq")))] });
+        p.fns.push(FnDef {
+            is_pub: false,
+            name: "viaq".into(),
+            params: vec![pu("w", u8t.clone()), pu("v", u16t.clone())],
+            ret: u16t.clone(),
+            body: vec![expr_stmt(bin(BinOp::BitXor, call("addk", vec![var("v")]), cast(var("w"), u16t.clone())))],
+        });
+        let mut ins = vec![];
+        for k in [0u8, 1, 44, 255] {
+            for y in [0u16, 1, 300, 65535] {
+                ins.push(vec![Val::u8(k), Val::Int(y as i128, IntTy::U16)]);
+            }
+        }
+        out.push(("main-parameter-named-like-a-wider-constant", p, ins));
+    }
     // an enum in a struct in an array, matched with nested patterns and rebuilt
     let mut defs = Defs::default();
     defs.add_enum("Kq", vec![("None", None), ("One", Some(vec![u8t.clone()])), ("Pair", Some(vec![Ty::Tup(vec![u8t.clone(), Ty::Bool]), Ty::arr(u8t.clone(), 2)]))]);
